@@ -2,7 +2,7 @@
    src/sparkx/MultiParticlePtCorrelations.py (Gen/GenPtCorrMethods.v, translator tools/py2coq/gen_ptcorr_methods.py,
    runtime Model/PtCorrRt.v) on the domain the hand model is claimed for:
 
-     max_order in 1..8 (what __init__ admits), particles with a finite pT_abs() and a finite or NaN weight (the hand
+     max_order in 1..8 (what __init__ accepts), particles with a finite pT_abs() and a finite or NaN weight (the hand
      model's particle type), at least one event, any commutative ring K with a division and a zero test.
 
    The regenerated functions are the method bodies statement by statement (array allocation, the two nested loops of
@@ -140,7 +140,7 @@ Section Source.
 
   (* ---------------------------------------------------------------- __init__ *)
   Theorem source___init__ (mo : Z) :
-    g_init mo = if ((mo <? Z.of_nat gen_max_order_lo) || (Z.of_nat gen_max_order_hi <? mo))%Z then Err ValueError
+    g_init mo = if ((mo <? 1) || (8 <? mo))%Z then Err ValueError
                 else Ok (MkObj mo ANone ANone ANone ANone SNone SNone AUnset AUnset).
   Proof. reflexivity. Qed.
 
@@ -183,8 +183,732 @@ Section Source.
     ((o_max_order self < 0)%Z -> g_PWk self ev = Err ValueError).
   Proof.
     split; intros H; unfold gen__P_W_k.
-    - rewrite H. cbn. induction ev as [|p ev IH]; [reflexivity|].
-      cbn in *. destruct (for_mut _ ev _) as [[s l]|e]; cbn in *; [|discriminate]. now inversion IH.
+    - rewrite H. cbn [np_zeros Z.ltb Z.compare Z.to_nat repeat bind rbind py_range seq map fold_leftM].
+      match goal with |- context [for_mut ?f ev ?s] =>
+        rewrite (for_mut_abs f (fun _ : unit => s) (fun t _ => t) (fun p => p) (fun _ _ => eq_refl) ev tt) end.
+      cbn [bind rbind fst snd]. now rewrite map_id.
     - unfold np_zeros. apply Z.ltb_lt in H. rewrite H. reflexivity.
   Qed.
+
+  (* ---------------------------------------------------------------- _transverse_momentum_correlations_event_num_denom *)
+  (* the object after rows were appended *)
+  Definition push (self : obj K) (rn rd : list (list F)) : obj K :=
+    set_D_events (set_N_events self (SList rn)) (SList rd).
+
+  Lemma push_push self a b c d : push (push self a b) c d = push self c d.
+  Proof. reflexivity. Qed.
+  Lemma push_same self rn rd : o_N_events self = SList rn -> o_D_events self = SList rd -> push self rn rd = self.
+  Proof. destruct self. cbn. intros -> ->. reflexivity. Qed.
+
+  Theorem source__event (self : obj K) (ev : list particle) (n : nat) (rn rd : list (list F)) :
+    o_max_order self = Z.of_nat n -> 1 <= n <= 8 ->
+    o_N_events self = SList rn -> o_D_events self = SList rd ->
+    g_event self ev = Ok (push self (rn ++ [rowN n ev]) (rd ++ [rowD n ev]), map norm ev).
+  Proof.
+    intros Hmo Hn HN HD. unfold gen__transverse_momentum_correlations_event_num_denom.
+    rewrite (source__P_W_k self ev n Hmo Hn). cbn [bind rbind].
+    rewrite Hmo, np_zeros_nat. cbn [bind rbind].
+    unfold rowN, rowD, N_event, D_event. generalize (mPk ev) (mWk ev). intros P W.
+    destruct self. cbn in Hmo, HN, HD. subst.
+    destruct (cases_1_8 n Hn) as [->|[->|[->|[->|[->|[->|[->| ->]]]]]]]; vm_compute; reflexivity.
+  Qed.
+
+  (* called on an object whose N_events is not a list (fresh from __init__: None; after a public method: an array) *)
+  Theorem source__event_no_list (self : obj K) (ev : list particle) (n : nat) :
+    o_max_order self = Z.of_nat n -> 1 <= n <= 8 ->
+    (forall r, o_N_events self <> SList r) -> g_event self ev = Err AttributeError.
+  Proof.
+    intros Hmo Hn HN. unfold gen__transverse_momentum_correlations_event_num_denom.
+    rewrite (source__P_W_k self ev n Hmo Hn). cbn [bind rbind].
+    rewrite Hmo, np_zeros_nat. cbn [bind rbind].
+    generalize (mPk ev) (mWk ev). intros P W.
+    destruct self as [mo a1 a2 a3 a4 sn sd a5 a6]. cbn in Hmo, HN. subst.
+    destruct sn as [| |r|a|]; try (exfalso; exact (HN r eq_refl));
+      destruct (cases_1_8 n Hn) as [->|[->|[->|[->|[->|[->|[->| ->]]]]]]]; vm_compute; reflexivity.
+  Qed.
+
+  (* ---------------------------------------------------------------- _compute_numerator_denominator_all_events *)
+  Lemma fold_rows n evs : forall rn rd,
+    fold_left (fun (t : list (list F) * list (list F)) ev => (fst t ++ [rowN n ev], snd t ++ [rowD n ev])) evs (rn, rd)
+    = (rn ++ map (rowN n) evs, rd ++ map (rowD n) evs).
+  Proof.
+    induction evs as [|ev evs IH]; intros rn rd; cbn [fold_left map fst snd].
+    - now rewrite !app_nil_r.
+    - rewrite IH, <- !app_assoc. reflexivity.
+  Qed.
+
+  Theorem source__all_events (self : obj K) (evs : list (list particle)) (n : nat) (rn rd : list (list F)) :
+    o_max_order self = Z.of_nat n -> 1 <= n <= 8 ->
+    o_N_events self = SList rn -> o_D_events self = SList rd ->
+    g_all self evs = Ok (push self (rn ++ map (rowN n) evs) (rd ++ map (rowD n) evs), map (map norm) evs).
+  Proof.
+    intros Hmo Hn HN HD. unfold gen__compute_numerator_denominator_all_events.
+    rewrite <- (push_same self rn rd HN HD) at 1.
+    match goal with |- context [for_mut ?f evs _] =>
+      rewrite (for_mut_abs f (fun t => push self (fst t) (snd t))
+                 (fun t ev => (fst t ++ [rowN n ev], snd t ++ [rowD n ev])) (map norm)) with (t := (rn, rd)) end.
+    - cbn [bind rbind fst snd]. rewrite fold_rows. reflexivity.
+    - intros [a b] ev. cbn [fst snd].
+      rewrite (source__event (push self a b) ev n a b); [reflexivity | | exact Hn | reflexivity | reflexivity].
+      destruct self; exact Hmo.
+  Qed.
+
+  (* ---------------------------------------------------------------- _compute_mean_pT_correlations *)
+  (* the ratio of the two event sums: non-finite when a sum is, or when the denominator vanishes *)
+  Definition ratio (on od : option K) : F :=
+    match on, od with Some a, Some d => if kis0 d then None else Some (kdiv a d) | _, _ => None end.
+
+  Lemma corr_ratio c evs : mcorr c evs = ratio (mosum (map (mN c) evs)) (mosum (map (mD c) evs)).
+  Proof. unfold corr, corr_pair, ratio. destruct (mosum (map (mN c) evs)), (mosum (map (mD c) evs)); reflexivity. Qed.
+
+  Lemma fold_fadd_none l : fold_left (fadd kadd) l None = None.
+  Proof. induction l as [|x l IH]; cbn; [reflexivity | exact IH]. Qed.
+
+  Lemma fold_fadd l : forall a,
+    fold_left (fadd kadd) l (Some a) = match mosum l with Some s => Some (kadd a s) | None => None end.
+  Proof.
+    induction l as [|x l IH]; intros a; cbn [fold_left osum].
+    - f_equal. ring.
+    - destruct x as [x|]; cbn [fadd flift2].
+      + rewrite IH. destruct (mosum l); [f_equal; ring | reflexivity].
+      + apply fold_fadd_none.
+  Qed.
+
+  Lemma fdiv_sums (l1 l2 : list F) :
+    fdiv kdiv kis0 (fold_left (fadd kadd) l1 (Some k0)) (fold_left (fadd kadd) l2 (Some k0)) = ratio (mosum l1) (mosum l2).
+  Proof.
+    rewrite !fold_fadd. unfold ratio, fdiv. destruct (mosum l1) as [a|], (mosum l2) as [d|]; try reflexivity.
+    replace (kadd k0 a) with a by ring. replace (kadd k0 d) with d by ring. reflexivity.
+  Qed.
+
+  (* a sum started at the Python float 0.0 becomes a numpy scalar with the first array element added *)
+  Definition tag {A} (l : list A) (x : F) : scalar K := match l with [] => PyF x | _ => NpF x end.
+
+  Definition sum2_body (a b : nat) (s : scalar K * scalar K) (r : list F) : result (scalar K * scalar K) :=
+    Ok (sadd kadd (fst s) (NpF (nth a r None)), sadd kadd (snd s) (NpF (nth b r None))).
+
+  Lemma sadd_np s x : sadd kadd s (NpF x) = NpF (fadd kadd (sval s) x).
+  Proof. destruct s; reflexivity. Qed.
+
+  Lemma sum2_struct a b data : forall s1 s2,
+    fold_leftM (sum2_body a b) data (s1, s2)
+    = Ok (match data with [] => s1 | _ => NpF (fold_left (fadd kadd) (map (fun r => nth a r None) data) (sval s1)) end,
+          match data with [] => s2 | _ => NpF (fold_left (fadd kadd) (map (fun r => nth b r None) data) (sval s2)) end).
+  Proof.
+    induction data as [|r data IH]; intros s1 s2; [reflexivity|].
+    cbn [fold_leftM sum2_body fst snd bind rbind]. rewrite IH, !sadd_np.
+    destruct data; reflexivity.
+  Qed.
+
+  Lemma sum2_loop (f : scalar K * scalar K -> Z -> result (scalar K * scalar K)) (data : nd K) (za zb : Z) (a b : nat) :
+    za = Z.of_nat a -> zb = Z.of_nat b ->
+    (forall s1 s2 i, f (s1, s2) i
+       = bind (bind (nd_get data i za) (fun t => Ok (sadd kadd s1 t))) (fun s1' =>
+         bind (bind (nd_get data i zb) (fun t => Ok (sadd kadd s2 t))) (fun s2' => Ok (s1', s2')))) ->
+    (forall r, In r data -> a < length r /\ b < length r) ->
+    fold_leftM f (py_range (nd_shape0 data)) (PyF (Some k0), PyF (Some k0))
+    = Ok (tag data (fold_left (fadd kadd) (map (fun r => nth a r None) data) (Some k0)),
+          tag data (fold_left (fadd kadd) (map (fun r => nth b r None) data) (Some k0))).
+  Proof.
+    intros -> -> Hf Hlen. unfold nd_shape0.
+    rewrite (range_loop (sum2_body a b) f data).
+    - rewrite sum2_struct. destruct data; reflexivity.
+    - intros [s1 s2] i r Hr. rewrite Hf. unfold nd_get. rewrite pyget_nat, Hr. cbn [bind rbind].
+      destruct (Hlen r (nth_error_In _ _ Hr)) as [Ha Hb].
+      rewrite !pyget_nat, (nth_error_nth' r None Ha), (nth_error_nth' r None Hb). reflexivity.
+  Qed.
+
+  Theorem source__compute_mean_pT_correlations {A} (self : obj K) (fn fd : A -> F) (l : list A) :
+    l <> [] ->
+    g_ratio self (map (fun a => [fn a; fd a]) l) = Ok (NpF (ratio (mosum (map fn l)) (mosum (map fd l)))).
+  Proof.
+    intros Hl. unfold gen__compute_mean_pT_correlations.
+    change (flit k0 k1 kadd kmul kopp 0) with (Some k0).
+    erewrite (sum2_loop _ _ 0%Z 1%Z 0 1 eq_refl eq_refl).
+    - cbn [bind rbind]. destruct l as [|x l]; [contradiction|]. cbn [map tag sdiv sval].
+      rewrite fdiv_sums. cbn [bind rbind]. rewrite !map_map. cbn [nth]. reflexivity.
+    - intros; reflexivity.
+    - intros r Hr. apply in_map_iff in Hr. destruct Hr as (x & <- & _). cbn. lia.
+  Qed.
+
+  (* no rows: both sums are still the Python float 0.0 (the hand model says "non-finite" here) *)
+  Theorem source__compute_mean_pT_correlations_no_rows (self : obj K) :
+    kis0 k0 = true -> g_ratio self [] = Err ZeroDivisionError.
+  Proof. intros H0. unfold gen__compute_mean_pT_correlations. cbn. rewrite H0. reflexivity. Qed.
+
+  (* ---------------------------------------------------------------- arrays *)
+  Lemma nth_error_seq0 n c : c < n -> nth_error (seq 0 n) c = Some c.
+  Proof.
+    intros H. rewrite (nth_error_nth' _ 0) by (rewrite seq_length; lia). now rewrite seq_nth by lia.
+  Qed.
+
+  Lemma nth_error_map_seq {B} (f : nat -> B) n c : c < n -> nth_error (map f (seq 0 n)) c = Some (f c).
+  Proof. intros H. now rewrite nth_error_map, nth_error_seq0. Qed.
+
+  Lemma col_of_rows {A} (row : A -> list F) (x : A -> F) c l :
+    (forall a, nth_error (row a) c = Some (x a)) -> col_of (map row l) (Z.of_nat c) = Ok (map x l).
+  Proof.
+    intros H. induction l as [|a l IH]; cbn [map col_of]; [reflexivity|].
+    rewrite pyget_nat, H, IH. reflexivity.
+  Qed.
+
+  Lemma store_col_rows {A} (row : A -> list F) (x : A -> F) c l :
+    l <> [] -> (forall a, nth_error (row a) c = Some (x a)) -> store_col (SArr (map row l)) (Z.of_nat c) = Ok (map x l).
+  Proof.
+    intros Hl H. destruct l as [|a l]; [contradiction|]. exact (col_of_rows row x c (a :: l) H).
+  Qed.
+
+  Lemma rect_rows {A} (row : A -> list F) n l : (forall a, length (row a) = n) -> rect (map row l) = true.
+  Proof.
+    intros H. destruct l as [|a l]; [reflexivity|]. cbn [map rect]. apply forallb_forall.
+    intros r Hr. apply in_map_iff in Hr. destruct Hr as (b & <- & _). rewrite !H. apply Nat.eqb_refl.
+  Qed.
+
+  Lemma nd_T_two {A} (f g : A -> F) (l : list A) : nd_T [map f l; map g l] = map (fun a => [f a; g a]) l.
+  Proof.
+    unfold nd_T. rewrite map_length.
+    induction l as [|a l IH]; [reflexivity|].
+    cbn [length seq map nth]. f_equal. rewrite <- seq_shift, map_map. exact IH.
+  Qed.
+
+  Lemma set_nth_app (l1 : list F) y l2 v : set_nth (l1 ++ y :: l2) (length l1) v = l1 ++ v :: l2.
+  Proof. induction l1 as [|a l1 IH]; cbn; [reflexivity | now rewrite IH]. Qed.
+
+  Lemma set_nth_at (l1 : list F) y l2 v i : i = length l1 -> set_nth (l1 ++ y :: l2) i v = l1 ++ v :: l2.
+  Proof. intros ->. apply set_nth_app. Qed.
+
+  (* an array that the loop over range(n) has filled up to index c *)
+  Definition fillarr (x : nat -> F) (z : F) (n c : nat) : list F := map x (seq 0 c) ++ repeat z (n - c).
+
+  Lemma fillarr_0 x z n : fillarr x z n 0 = repeat z n.
+  Proof. unfold fillarr. cbn [seq map app]. now rewrite Nat.sub_0_r. Qed.
+  Lemma fillarr_n x z n : fillarr x z n n = map x (seq 0 n).
+  Proof. unfold fillarr. rewrite Nat.sub_diag. cbn [repeat]. apply app_nil_r. Qed.
+
+  Lemma arr_set_fill (x : nat -> F) (z : F) n c (s : scalar K) : c < n -> sval s = x c ->
+    arr_set (fillarr x z n c) (Z.of_nat c) s = Ok (fillarr x z n (Datatypes.S c)).
+  Proof.
+    intros Hc Hs. unfold arr_set, py_len, fillarr.
+    rewrite app_length, map_length, seq_length, repeat_length.
+    destruct (Z.of_nat c <? 0)%Z eqn:E1; [apply Z.ltb_lt in E1; lia|]. rewrite E1.
+    destruct (Z.of_nat (c + (n - c)) <=? Z.of_nat c)%Z eqn:E2; [apply Z.leb_le in E2; lia|].
+    cbn [orb]. rewrite Nat2Z.id, Hs. replace (n - c) with (Datatypes.S (n - Datatypes.S c)) by lia. cbn [repeat].
+    rewrite (set_nth_at (map x (seq 0 c))) by now rewrite map_length, seq_length.
+    rewrite seq_S, map_app, <- app_assoc. reflexivity.
+  Qed.
+
+  (* ---------------------------------------------------------------- the arguments of the public methods *)
+  (* accepted: compute_error a bool, delete_fraction a float in (0, 1), number_samples an int > 0, seed an int
+     (True / False count as ints, as isinstance does) *)
+  Definition valid_args (ce df ns seed : pyval) (b : bool) : Prop :=
+    ce = PBool b /\ (exists q, df = PFloat (FQ q) /\ (0 < q)%Q /\ (q < 1)%Q) /\
+    (exists z, py_as_int ns = Some z /\ (0 < z)%Z) /\ (exists z, py_as_int seed = Some z).
+  (* rejected, in the order of the checks *)
+  Definition rejected (ce df ns seed : pyval) : option errcls :=
+    match py_as_float df with
+    | None => Some TypeError
+    | Some x =>
+      if negb (fq_ltb (FQ 0) x && fq_ltb x (FQ 1)) then Some ValueError else
+      match py_as_int ns with
+      | None => Some TypeError
+      | Some z =>
+        if negb (0 <? z)%Z then Some ValueError else
+        match py_as_int seed with
+        | None => Some TypeError
+        | Some _ => match py_as_bool ce with None => Some TypeError | Some _ => None end
+        end
+      end
+    end.
+
+  Lemma valid_not_rejected ce df ns seed b : valid_args ce df ns seed b -> rejected ce df ns seed = None.
+  Proof.
+    intros (-> & (q & -> & Hq0 & Hq1) & (z & Hz & Hz0) & (z' & Hz')). unfold rejected.
+    cbn [py_as_float py_as_bool fq_ltb]. rewrite Hz, Hz'.
+    destruct (Qle_bool q 0) eqn:E1; [apply Qle_bool_iff in E1; exfalso; exact (Qlt_not_le _ _ Hq0 E1)|].
+    destruct (Qle_bool 1 q) eqn:E2; [apply Qle_bool_iff in E2; exfalso; exact (Qlt_not_le _ _ Hq1 E2)|].
+    cbn [negb andb]. apply Z.ltb_lt in Hz0. rewrite Hz0. reflexivity.
+  Qed.
+
+  (* ---------------------------------------------------------------- mean_pT_correlations *)
+  (* self after `self.N_events = np.array(self.N_events)` / D_events *)
+  Definition with_arrays (self : obj K) (n : nat) (evs : list (list particle)) : obj K :=
+    set_D_events (set_N_events self (SArr (map (rowN n) evs))) (SArr (map (rowD n) evs)).
+  (* the (numerator, denominator) array of order index c *)
+  Definition nd_pairs (c : nat) (evs : list (list particle)) : nd K := map (fun ev => [mN c ev; mD c ev]) evs.
+  Definition corrs (n : nat) (evs : list (list particle)) : list F := map (fun c => mcorr c evs) (seq 0 n).
+  Definition errvals (errs : nat -> scalar K) (n : nat) : list F := map (fun c => sval (errs c)) (seq 0 n).
+
+  Lemma rejected_corr self evs ce df ns seed e :
+    rejected ce df ns seed = Some e -> g_corr self evs ce df ns seed = Err e.
+  Proof.
+    unfold rejected, gen_mean_pT_correlations.
+    destruct (py_as_float df) as [x|]; [|now intros [= <-]].
+    change (FQ (0 # 1)) with (FQ 0). change (FQ (1 # 1)) with (FQ 1).
+    destruct (negb (fq_ltb (FQ 0) x && fq_ltb x (FQ 1))); [now intros [= <-]|].
+    destruct (py_as_int ns) as [z|]; [|now intros [= <-]].
+    destruct (negb (0 <? z)%Z); [now intros [= <-]|].
+    destruct (py_as_int seed) as [z'|]; [|now intros [= <-]].
+    destruct (py_as_bool ce) as [b|]; [discriminate | now intros [= <-]].
+  Qed.
+
+  Lemma rowN_length n ev : length (rowN n ev) = n.
+  Proof. unfold rowN. now rewrite map_length, seq_length. Qed.
+  Lemma rowD_length n ev : length (rowD n ev) = n.
+  Proof. unfold rowD. now rewrite map_length, seq_length. Qed.
+
+  Theorem source_mean_pT_correlations (self : obj K) (evs : list (list particle)) (n : nat)
+      (ce df ns seed : pyval) (b : bool) (errs : nat -> scalar K) :
+    o_max_order self = Z.of_nat n -> 1 <= n <= 8 -> evs <> [] -> valid_args ce df ns seed b ->
+    (b = true -> forall c, c < n ->
+       bind (jk_new df ns seed)
+            (fun jk => jk_estimate jk (nd_pairs c evs) (fun a => g_ratio (with_arrays self n evs) a)) = Ok (errs c)) ->
+    g_corr self evs ce df ns seed
+    = Ok (if b then RetPair (corrs n evs) (errvals errs n) else RetArr (corrs n evs),
+          (let s := set_mean_pT_correlation (with_arrays self n evs) (AArr (corrs n evs)) in
+           if b then set_mean_pT_correlation_error s (AArr (errvals errs n)) else s),
+          map (map norm) evs).
+  Proof.
+    intros Hmo Hn Hev Hargs Hjk.
+    pose proof (valid_not_rejected _ _ _ _ _ Hargs) as Hrej.
+    destruct Hargs as (-> & (q & -> & Hq0 & Hq1) & (z & Hz & Hz0) & (z' & Hz')).
+    unfold rejected in Hrej. cbn [py_as_float py_as_bool] in Hrej. rewrite Hz, Hz' in Hrej.
+    unfold gen_mean_pT_correlations. cbn [py_as_float py_as_bool]. rewrite Hz, Hz'.
+    change (FQ (0 # 1)) with (FQ 0). change (FQ (1 # 1)) with (FQ 1).
+    destruct (negb (fq_ltb (FQ 0) (FQ q) && fq_ltb (FQ q) (FQ 1))); [discriminate|].
+    destruct (negb (0 <? z)%Z); [discriminate|]. clear Hrej.
+    destruct self as [mo a1 a2 a3 a4 sn sd a5 a6]. cbn [o_max_order] in Hmo. subst mo. cbv zeta.
+    pose proof (source__all_events (push (MkObj (Z.of_nat n) a1 a2 a3 a4 sn sd a5 a6) [] []) evs n [] []
+                  eq_refl Hn eq_refl eq_refl) as Hall.
+    unfold push, set_N_events, set_D_events in Hall |- *.
+    cbn [o_N_events o_D_events o_max_order app
+         o_mean_pt_correlation o_mean_pt_correlation_error o_kappa o_kappa_error o_mean_pT_correlation
+         o_mean_pT_correlation_error] in Hall |- *.
+    rewrite Hall. clear Hall.
+    cbn [bind rbind push set_N_events set_D_events o_N_events o_D_events o_max_order app np_array_store
+         o_mean_pt_correlation o_mean_pt_correlation_error o_kappa o_kappa_error o_mean_pT_correlation
+         o_mean_pT_correlation_error].
+    rewrite (rect_rows (rowN n) n evs (rowN_length n)), (rect_rows (rowD n) n evs (rowD_length n)).
+    cbn [bind rbind set_N_events set_D_events o_N_events o_D_events o_max_order
+         o_mean_pt_correlation o_mean_pt_correlation_error o_kappa o_kappa_error o_mean_pT_correlation
+         o_mean_pt_correlation_error].
+    rewrite np_zeros_nat. cbn [bind rbind].
+    match goal with |- context [fold_leftM ?f (py_range (Z.of_nat n)) ?s0] =>
+      destruct (range_inv f (fun c s =>
+                   fst s = fillarr (fun c => mcorr c evs) (f0 k0) n c /\
+                   snd s = if b then fillarr (fun c => sval (errs c)) (f0 k0) n c else repeat (f0 k0) n) n s0)
+        as (s' & E & HI1 & HI2) end.
+    - cbn [fst snd]. rewrite !fillarr_0. destruct b; split; reflexivity.
+    - intros c [A B] Hc [HA HB]. cbn [fst snd] in HA, HB. subst A.
+      rewrite (store_col_rows (rowN n) (mN c) c evs Hev)
+        by (intros ev; exact (nth_error_map_seq (fun j => mN j ev) n c Hc)).
+      rewrite (store_col_rows (rowD n) (mD c) c evs Hev)
+        by (intros ev; exact (nth_error_map_seq (fun j => mD j ev) n c Hc)).
+      cbn [bind rbind]. unfold np_array_rows. cbn [rect forallb]. rewrite !map_length, Nat.eqb_refl.
+      cbn [andb bind rbind]. rewrite nd_T_two.
+      rewrite (source__compute_mean_pT_correlations _ (mN c) (mD c) evs Hev), <- corr_ratio.
+      cbn [bind rbind]. rewrite (arr_set_fill (fun c => mcorr c evs) (f0 k0) n c (NpF (mcorr c evs)) Hc eq_refl).
+      cbn [bind rbind]. destruct b.
+      + specialize (Hjk eq_refl c Hc). unfold with_arrays, nd_pairs, set_N_events, set_D_events in Hjk.
+        cbn [o_N_events o_D_events o_max_order
+             o_mean_pt_correlation o_mean_pt_correlation_error o_kappa o_kappa_error o_mean_pT_correlation
+             o_mean_pT_correlation_error] in Hjk.
+        destruct (jk_new (PFloat (FQ q)) ns seed) as [jk|e]; [|discriminate Hjk].
+        cbn [bind rbind] in Hjk |- *.
+        match goal with |- context [jk_estimate jk ?a ?f] =>
+          replace (jk_estimate jk a f) with (@Ok (scalar K) (errs c)) by (symmetry; exact Hjk) end.
+        cbn [bind rbind]. subst B.
+        rewrite (arr_set_fill (fun c => sval (errs c)) (f0 k0) n c (errs c) Hc eq_refl).
+        cbn [bind rbind]. eexists. split; [reflexivity|]. split; reflexivity.
+      + eexists. split; [reflexivity|]. split; [reflexivity | exact HB].
+    - rewrite E. cbn [bind rbind]. destruct s' as [A B]. cbn [fst snd] in HI1, HI2.
+      rewrite fillarr_n in HI1. subst A.
+      destruct b.
+      + rewrite fillarr_n in HI2. subst B. reflexivity.
+      + subst B. reflexivity.
+  Qed.
+
+  Theorem source_mean_pT_correlations_rejects (self : obj K) evs ce df ns seed e :
+    rejected ce df ns seed = Some e -> g_corr self evs ce df ns seed = Err e.
+  Proof. apply rejected_corr. Qed.
+
+  (* no event at all: np.array([]) is 1-D, the first column access raises *)
+  Theorem source_mean_pT_correlations_no_events (self : obj K) (n : nat) (ce df ns seed : pyval) (b : bool) :
+    o_max_order self = Z.of_nat n -> 1 <= n <= 8 -> valid_args ce df ns seed b ->
+    g_corr self [] ce df ns seed = Err IndexError.
+  Proof.
+    intros Hmo Hn Hargs.
+    pose proof (valid_not_rejected _ _ _ _ _ Hargs) as Hrej.
+    destruct Hargs as (-> & (q & -> & Hq0 & Hq1) & (z & Hz & Hz0) & (z' & Hz')).
+    unfold rejected in Hrej. cbn [py_as_float py_as_bool] in Hrej. rewrite Hz, Hz' in Hrej.
+    unfold gen_mean_pT_correlations. cbn [py_as_float py_as_bool]. rewrite Hz, Hz'.
+    change (FQ (0 # 1)) with (FQ 0). change (FQ (1 # 1)) with (FQ 1).
+    destruct (negb (fq_ltb (FQ 0) (FQ q) && fq_ltb (FQ q) (FQ 1))); [discriminate|].
+    destruct (negb (0 <? z)%Z); [discriminate|]. clear Hrej.
+    destruct self as [mo a1 a2 a3 a4 sn sd a5 a6]. cbn [o_max_order] in Hmo. subst mo.
+    destruct n as [|n]; [lia|]. cbn -[Z.of_nat]. rewrite !np_zeros_nat. cbn [bind rbind].
+    rewrite py_range_nat. reflexivity.
+  Qed.
+
+  (* ---------------------------------------------------------------- _kappa_cumulant *)
+  Notation fkappa := (gen_kappa F (f0 k0) (f1 k1) (fadd kadd) (fmul kmul) (fsub ksub) (fopp kopp)).
+
+  Theorem source__kappa_cumulant (self : obj K) (C : list F) (k : Z) :
+    g_kappa_poly self C k =
+      if ((1 <=? k) && (k <=? 8))%Z then
+        if length C <? Z.to_nat k then Err IndexError else poly_val (fkappa (Z.to_nat k) (arr_fn C))
+      else Err ValueError.
+  Proof.
+    unfold gen__kappa_cumulant.
+    assert (Hcase : forall (m : nat) (X : result (scalar K)),
+              bind (arr_need C m) (fun _ => X) = if length C <? Datatypes.S m then Err IndexError else X).
+    { intros m X. unfold arr_need, Nat.ltb. cbn [Nat.leb]. destruct (length C <=? m); reflexivity. }
+    destruct (Z.eqb_spec k 1) as [->|?]; [apply Hcase|].
+    destruct (Z.eqb_spec k 2) as [->|?]; [apply Hcase|].
+    destruct (Z.eqb_spec k 3) as [->|?]; [apply Hcase|].
+    destruct (Z.eqb_spec k 4) as [->|?]; [apply Hcase|].
+    destruct (Z.eqb_spec k 5) as [->|?]; [apply Hcase|].
+    destruct (Z.eqb_spec k 6) as [->|?]; [apply Hcase|].
+    destruct (Z.eqb_spec k 7) as [->|?]; [apply Hcase|].
+    destruct (Z.eqb_spec k 8) as [->|?]; [apply Hcase|].
+    destruct ((1 <=? k) && (k <=? 8))%Z eqn:E; [|reflexivity].
+    apply andb_prop in E. destruct E as [E1 E2]. apply Z.leb_le in E1, E2. lia.
+  Qed.
+
+  (* the cumulant of order c+1 of a list of correlations: non-finite as soon as one of them is *)
+  Definition kappa_l (l : list F) (c : nat) : F :=
+    if forallb (fun x : F => match x with Some _ => true | None => false end) l
+    then gen_kappa K k0 k1 kadd kmul ksub kopp (Datatypes.S c) (fun i => match nth i l None with Some v => v | None => k0 end)
+    else None.
+
+  Lemma kappa_l_model c evs : c < 8 -> kappa_l (map (fun i => mcorr i evs) (seq 0 (Datatypes.S c))) c = mkappa c evs.
+  Proof.
+    intros Hc. do 8 (destruct c as [|c]; [reflexivity|]). lia.
+  Qed.
+
+  Lemma kappa_lift c (l : list F) : c < 8 -> length l = Datatypes.S c -> fkappa (Datatypes.S c) (arr_fn l) = Some (kappa_l l c).
+  Proof.
+    intros Hc Hl.
+    do 8 (destruct c as [|c];
+      [ repeat match goal with
+               | H : length ?l = Datatypes.S _ |- _ =>
+                   destruct l as [|[?|] l]; cbn [length] in H; [discriminate H | apply Nat.succ_inj in H | apply Nat.succ_inj in H]
+               | H : length ?l = 0 |- _ => destruct l; [clear H | discriminate H]
+               end; reflexivity | ]).
+    lia.
+  Qed.
+
+  (* ---------------------------------------------------------------- _compute_mean_pT_cumulants *)
+  (* the correlation of order index j read off the interleaved (numerator, denominator) columns *)
+  Definition colsum (data : nd K) (j : nat) : option K := mosum (map (fun r => nth j r None) data).
+  Definition cf (data : nd K) (j : nat) : F := ratio (colsum data (2 * j)) (colsum data (2 * j + 1)).
+
+  Theorem source__compute_mean_pT_cumulants (self : obj K) (data : nd K) (c : nat) :
+    c < 8 -> data <> [] -> (forall r, In r data -> 2 * Datatypes.S c <= length r) ->
+    g_cum self data (Z.of_nat c) = Ok (NpF (kappa_l (map (cf data) (seq 0 (Datatypes.S c))) c)).
+  Proof.
+    intros Hc Hd Hlen. unfold gen__compute_mean_pT_cumulants. cbv zeta.
+    replace (Z.of_nat c + 1)%Z with (Z.of_nat (Datatypes.S c)) by lia.
+    rewrite np_zeros_nat. cbn [bind rbind].
+    match goal with |- context [fold_leftM ?f (py_range (Z.of_nat (Datatypes.S c))) ?s0] =>
+      destruct (range_inv f (fun j C => C = fillarr (cf data) (f0 k0) (Datatypes.S c) j) (Datatypes.S c) s0)
+        as (C & E & HC) end.
+    - now rewrite fillarr_0.
+    - intros j C0 Hj ->.
+      change (flit k0 k1 kadd kmul kopp 0) with (Some k0).
+      assert (Hza : (2 * Z.of_nat j)%Z = Z.of_nat (2 * j)) by lia.
+      assert (Hzb : (2 * Z.of_nat j + 1)%Z = Z.of_nat (2 * j + 1)) by lia.
+      assert (Hl2 : forall r, In r data -> 2 * j < length r /\ 2 * j + 1 < length r)
+        by (intros r Hr; specialize (Hlen r Hr); lia).
+      match goal with |- context [fold_leftM ?g (py_range (nd_shape0 data)) ?s] =>
+        rewrite (sum2_loop g data _ _ (2 * j) (2 * j + 1) Hza Hzb (fun _ _ _ => eq_refl) Hl2) end.
+      cbn [bind rbind]. destruct data as [|r0 data']; [contradiction|]. cbn [tag sdiv sval bind rbind].
+      rewrite fdiv_sums. fold (colsum (r0 :: data') (2 * j)). fold (colsum (r0 :: data') (2 * j + 1)).
+      fold (cf (r0 :: data') j).
+      rewrite (arr_set_fill (cf (r0 :: data')) (f0 k0) (Datatypes.S c) j (NpF (cf (r0 :: data') j)) Hj eq_refl).
+      cbn [bind rbind]. eexists. split; reflexivity.
+    - rewrite E. cbn [bind rbind]. subst C. rewrite fillarr_n, source__kappa_cumulant.
+      destruct ((1 <=? Z.of_nat (Datatypes.S c)) && (Z.of_nat (Datatypes.S c) <=? 8))%Z eqn:E1.
+      2:{ apply andb_false_iff in E1. destruct E1 as [E1|E1]; apply Z.leb_gt in E1; lia. }
+      rewrite Nat2Z.id, map_length, seq_length, Nat.ltb_irrefl.
+      rewrite kappa_lift by (rewrite ?map_length, ?seq_length; lia). reflexivity.
+  Qed.
+
+  (* ---------------------------------------------------------------- mean_pT_cumulants: the column surgery *)
+  Lemma firstn_map_seq {B} (f : nat -> B) : forall k s n, firstn k (map f (seq s n)) = map f (seq s (Nat.min k n)).
+  Proof.
+    induction k as [|k IH]; intros s n; [reflexivity|].
+    destruct n as [|n]; [reflexivity|]. cbn [Nat.min seq map firstn]. now rewrite IH.
+  Qed.
+
+  Lemma store_cols_to_rows {A} (row : A -> list F) (z : Z) (l : list A) :
+    l <> [] -> store_cols_to (SArr (map row l)) z = Ok (map (fun a => py_slice_to (row a) z) l).
+  Proof. intros Hl. destruct l as [|a l]; [contradiction|]. cbn [map store_cols_to]. now rewrite map_map. Qed.
+
+  (* the number of columns that `[:, : 2 * (order + 1)]` keeps *)
+  Definition kept (n c : nat) : nat := Nat.min (2 * (c + 1)) n.
+
+  Lemma slice_rowN n c ev : py_slice_to (rowN n ev) (2 * (Z.of_nat c + 1)) = rowN (kept n c) ev.
+  Proof.
+    unfold py_slice_to, rowN, kept. destruct (2 * (Z.of_nat c + 1) <? 0)%Z eqn:E; [apply Z.ltb_lt in E; lia|].
+    replace (Z.to_nat (2 * (Z.of_nat c + 1))) with (2 * (c + 1)) by lia. apply firstn_map_seq.
+  Qed.
+  Lemma slice_rowD n c ev : py_slice_to (rowD n ev) (2 * (Z.of_nat c + 1)) = rowD (kept n c) ev.
+  Proof.
+    unfold py_slice_to, rowD, kept. destruct (2 * (Z.of_nat c + 1) <? 0)%Z eqn:E; [apply Z.ltb_lt in E; lia|].
+    replace (Z.to_nat (2 * (Z.of_nat c + 1))) with (2 * (c + 1)) by lia. apply firstn_map_seq.
+  Qed.
+
+  Fixpoint interleave (a b : list F) : list F :=
+    match a, b with x :: a', y :: b' => x :: y :: interleave a' b' | _, _ => [] end.
+
+  Lemma set_step_even (src : list F) : forall m, length src = m ->
+    set_step (repeat junk (m + m)) 0 2 src = Some (interleave src (repeat junk m)).
+  Proof.
+    induction src as [|y src IH]; intros m Hm; cbn [length] in Hm; subst m; [reflexivity|].
+    rewrite Nat.add_succ_r. cbn [plus repeat set_step Nat.sub interleave]. rewrite (IH _ eq_refl). reflexivity.
+  Qed.
+
+  Lemma set_step_odd (a : list F) : forall b src, length b = length a -> length src = length a ->
+    set_step (interleave a b) 1 2 src = Some (interleave a src).
+  Proof.
+    induction a as [|x a IH]; intros b src Hb Hs; destruct b as [|y b], src as [|z src]; try discriminate; [reflexivity|].
+    cbn [length] in Hb, Hs. cbn [interleave set_step Nat.sub]. rewrite (IH b src) by lia. reflexivity.
+  Qed.
+
+  Lemma set_rows_even {A} (row : A -> list F) m (l : list A) : (forall a, length (row a) = m) ->
+    set_step_rows (repeat (repeat junk (m + m)) (length l)) (map row l) 0 2
+    = Some (map (fun a => interleave (row a) (repeat junk m)) l).
+  Proof.
+    intros H. induction l as [|a l IH]; [reflexivity|].
+    cbn [length repeat map set_step_rows]. rewrite (set_step_even (row a) m (H a)), IH. reflexivity.
+  Qed.
+
+  Lemma set_rows_odd {A} (row1 row2 : A -> list F) m (l : list A) :
+    (forall a, length (row1 a) = m) -> (forall a, length (row2 a) = m) ->
+    set_step_rows (map (fun a => interleave (row1 a) (repeat junk m)) l) (map row2 l) 1 2
+    = Some (map (fun a => interleave (row1 a) (row2 a)) l).
+  Proof.
+    intros H1 H2. induction l as [|a l IH]; [reflexivity|].
+    cbn [map set_step_rows]. rewrite set_step_odd, IH; [reflexivity | | ]; rewrite ?repeat_length, ?H1, ?H2; reflexivity.
+  Qed.
+
+  Lemma nth_interleave (a : list F) : forall b j, length b = length a -> j < length a ->
+    nth (2 * j) (interleave a b) None = nth j a None /\ nth (2 * j + 1) (interleave a b) None = nth j b None.
+  Proof.
+    induction a as [|x a IH]; intros b j Hb Hj; [cbn in Hj; lia|].
+    destruct b as [|y b]; [discriminate|]. cbn [length] in Hb, Hj.
+    destruct j as [|j]; [split; reflexivity|].
+    replace (2 * Datatypes.S j) with (Datatypes.S (Datatypes.S (2 * j))) by lia.
+    replace (Datatypes.S (Datatypes.S (2 * j)) + 1) with (Datatypes.S (Datatypes.S (2 * j + 1))) by lia.
+    cbn [interleave nth]. apply IH; lia.
+  Qed.
+
+  Lemma interleave_length (a b : list F) : length b = length a -> length (interleave a b) = 2 * length a.
+  Proof.
+    revert b. induction a as [|x a IH]; intros b Hb; [reflexivity|].
+    destruct b as [|y b]; [discriminate|]. cbn [length interleave] in *. rewrite IH by lia. lia.
+  Qed.
+
+  (* the array handed to _compute_mean_pT_cumulants for order index c: numerator and denominator columns alternate *)
+  Definition nd_inter (n c : nat) (evs : list (list particle)) : nd K :=
+    map (fun ev => interleave (rowN (kept n c) ev) (rowD (kept n c) ev)) evs.
+  Definition kappas (n : nat) (evs : list (list particle)) : list F := map (fun c => mkappa c evs) (seq 0 n).
+
+  Lemma nth_rowN m j ev : j < m -> nth j (rowN m ev) None = mN j ev.
+  Proof.
+    intros H. unfold rowN. apply nth_error_nth. exact (nth_error_map_seq (fun c => mN c ev) m j H).
+  Qed.
+  Lemma nth_rowD m j ev : j < m -> nth j (rowD m ev) None = mD j ev.
+  Proof.
+    intros H. unfold rowD. apply nth_error_nth. exact (nth_error_map_seq (fun c => mD c ev) m j H).
+  Qed.
+
+  Lemma cf_inter n c evs j : c < n -> j <= c -> cf (nd_inter n c evs) j = mcorr j evs.
+  Proof.
+    intros Hc Hj. unfold cf, colsum, nd_inter. rewrite !map_map, corr_ratio.
+    assert (Hk : j < kept n c) by (unfold kept; lia).
+    assert (H1 : forall ev, nth (2 * j) (interleave (rowN (kept n c) ev) (rowD (kept n c) ev)) None = mN j ev).
+    { intros ev. rewrite (proj1 (nth_interleave (rowN (kept n c) ev) (rowD (kept n c) ev) j
+                        ltac:(now rewrite rowN_length, rowD_length) ltac:(now rewrite rowN_length))).
+      now apply nth_rowN. }
+    assert (H2 : forall ev, nth (2 * j + 1) (interleave (rowN (kept n c) ev) (rowD (kept n c) ev)) None = mD j ev).
+    { intros ev. rewrite (proj2 (nth_interleave (rowN (kept n c) ev) (rowD (kept n c) ev) j
+                        ltac:(now rewrite rowN_length, rowD_length) ltac:(now rewrite rowN_length))).
+      now apply nth_rowD. }
+    rewrite (map_ext _ _ H1), (map_ext _ _ H2). reflexivity.
+  Qed.
+
+  Lemma kappa_inter n c evs : c < n -> c < 8 ->
+    kappa_l (map (cf (nd_inter n c evs)) (seq 0 (Datatypes.S c))) c = mkappa c evs.
+  Proof.
+    intros Hn Hc. rewrite <- (kappa_l_model c evs Hc). f_equal. apply map_ext_in.
+    intros j Hj. apply in_seq in Hj. apply cf_inter; lia.
+  Qed.
+
+  Lemma nd_shape1_rows {A} (row : A -> list F) m (l : list A) :
+    l <> [] -> (forall a, length (row a) = m) -> nd_shape1 (map row l) = Ok (Z.of_nat m).
+  Proof. intros Hl H. destruct l as [|a l]; [contradiction|]. cbn [map nd_shape1]. unfold py_len. now rewrite H. Qed.
+
+  Lemma np_empty_nat r a b : np_empty junk (Z.of_nat r) (Z.of_nat a + Z.of_nat b) = Ok (repeat (repeat junk (a + b)) r).
+  Proof.
+    unfold np_empty. destruct (Z.of_nat r <? 0)%Z eqn:E1; [apply Z.ltb_lt in E1; lia|].
+    destruct (Z.of_nat a + Z.of_nat b <? 0)%Z eqn:E2; [apply Z.ltb_lt in E2; lia|].
+    cbn [orb]. rewrite Nat2Z.id. replace (Z.to_nat (Z.of_nat a + Z.of_nat b)) with (a + b) by lia. reflexivity.
+  Qed.
+
+  Lemma nd_set_even {A} (row : A -> list F) m (l : list A) : l <> [] -> (forall a, length (row a) = m) ->
+    nd_set_cols_step (repeat (repeat junk (m + m)) (length l)) 0 2 (map row l)
+    = Ok (map (fun a => interleave (row a) (repeat junk m)) l).
+  Proof.
+    intros Hl H. unfold nd_set_cols_step. rewrite (set_rows_even row m l H).
+    destruct l; [contradiction | reflexivity].
+  Qed.
+
+  Lemma nd_set_odd {A} (row1 row2 : A -> list F) m (l : list A) : l <> [] ->
+    (forall a, length (row1 a) = m) -> (forall a, length (row2 a) = m) ->
+    nd_set_cols_step (map (fun a => interleave (row1 a) (repeat junk m)) l) 1 2 (map row2 l)
+    = Ok (map (fun a => interleave (row1 a) (row2 a)) l).
+  Proof.
+    intros Hl H1 H2. unfold nd_set_cols_step. rewrite (set_rows_odd row1 row2 m l H1 H2).
+    destruct l; [contradiction | reflexivity].
+  Qed.
+
+  (* ---------------------------------------------------------------- mean_pT_cumulants *)
+  Lemma rejected_kappa self evs ce df ns seed e :
+    rejected ce df ns seed = Some e -> g_kappa self evs ce df ns seed = Err e.
+  Proof.
+    unfold rejected, gen_mean_pT_cumulants.
+    destruct (py_as_float df) as [x|]; [|now intros [= <-]].
+    change (FQ (0 # 1)) with (FQ 0). change (FQ (1 # 1)) with (FQ 1).
+    destruct (negb (fq_ltb (FQ 0) x && fq_ltb x (FQ 1))); [now intros [= <-]|].
+    destruct (py_as_int ns) as [z|]; [|now intros [= <-]].
+    destruct (negb (0 <? z)%Z); [now intros [= <-]|].
+    destruct (py_as_int seed) as [z'|]; [|now intros [= <-]].
+    destruct (py_as_bool ce) as [b|]; [discriminate | now intros [= <-]].
+  Qed.
+
+  Theorem source_mean_pT_cumulants (self : obj K) (evs : list (list particle)) (n : nat)
+      (ce df ns seed : pyval) (b : bool) (errs : nat -> scalar K) :
+    o_max_order self = Z.of_nat n -> 1 <= n <= 8 -> evs <> [] -> valid_args ce df ns seed b ->
+    (b = true -> forall c, c < n ->
+       bind (jk_new df ns seed)
+            (fun jk => jk_estimate jk (nd_inter n c evs) (fun a => g_cum (with_arrays self n evs) a (Z.of_nat c))) = Ok (errs c)) ->
+    g_kappa self evs ce df ns seed
+    = Ok (if b then RetPair (kappas n evs) (errvals errs n) else RetArr (kappas n evs),
+          (let s := set_kappa (with_arrays self n evs) (AArr (kappas n evs)) in
+           if b then set_kappa_error s (AArr (errvals errs n)) else s),
+          map (map norm) evs).
+  Proof.
+    intros Hmo Hn Hev Hargs Hjk.
+    pose proof (valid_not_rejected _ _ _ _ _ Hargs) as Hrej.
+    destruct Hargs as (-> & (q & -> & Hq0 & Hq1) & (z & Hz & Hz0) & (z' & Hz')).
+    unfold rejected in Hrej. cbn [py_as_float py_as_bool] in Hrej. rewrite Hz, Hz' in Hrej.
+    unfold gen_mean_pT_cumulants. cbn [py_as_float py_as_bool]. rewrite Hz, Hz'.
+    change (FQ (0 # 1)) with (FQ 0). change (FQ (1 # 1)) with (FQ 1).
+    destruct (negb (fq_ltb (FQ 0) (FQ q) && fq_ltb (FQ q) (FQ 1))); [discriminate|].
+    destruct (negb (0 <? z)%Z); [discriminate|]. clear Hrej.
+    destruct self as [mo a1 a2 a3 a4 sn sd a5 a6]. cbn [o_max_order] in Hmo. subst mo. cbv zeta.
+    pose proof (source__all_events (push (MkObj (Z.of_nat n) a1 a2 a3 a4 sn sd a5 a6) [] []) evs n [] []
+                  eq_refl Hn eq_refl eq_refl) as Hall.
+    unfold push, set_N_events, set_D_events in Hall |- *.
+    cbn [o_N_events o_D_events o_max_order app
+         o_mean_pt_correlation o_mean_pt_correlation_error o_kappa o_kappa_error o_mean_pT_correlation
+         o_mean_pT_correlation_error] in Hall |- *.
+    rewrite Hall. clear Hall.
+    cbn [bind rbind push set_N_events set_D_events o_N_events o_D_events o_max_order app np_array_store
+         o_mean_pt_correlation o_mean_pt_correlation_error o_kappa o_kappa_error o_mean_pT_correlation
+         o_mean_pT_correlation_error].
+    rewrite (rect_rows (rowN n) n evs (rowN_length n)), (rect_rows (rowD n) n evs (rowD_length n)).
+    cbn [bind rbind set_N_events set_D_events o_N_events o_D_events o_max_order
+         o_mean_pt_correlation o_mean_pt_correlation_error o_kappa o_kappa_error o_mean_pT_correlation
+         o_mean_pt_correlation_error].
+    rewrite np_zeros_nat. cbn [bind rbind].
+    match goal with |- context [fold_leftM ?f (py_range (Z.of_nat n)) ?s0] =>
+      destruct (range_inv f (fun c s =>
+                   fst s = fillarr (fun c => mkappa c evs) (f0 k0) n c /\
+                   snd s = if b then fillarr (fun c => sval (errs c)) (f0 k0) n c else repeat (f0 k0) n) n s0)
+        as (s' & E & HI1 & HI2) end.
+    - cbn [fst snd]. rewrite !fillarr_0. destruct b; split; reflexivity.
+    - intros c [A B] Hc [HA HB]. cbn [fst snd] in HA, HB. subst A.
+      rewrite (store_cols_to_rows (rowN n) _ evs Hev), (store_cols_to_rows (rowD n) _ evs Hev).
+      cbn [bind rbind].
+      rewrite (map_ext _ _ (slice_rowN n c)), (map_ext _ _ (slice_rowD n c)).
+      rewrite (nd_shape1_rows (rowN (kept n c)) (kept n c) evs Hev (rowN_length _)).
+      rewrite (nd_shape1_rows (rowD (kept n c)) (kept n c) evs Hev (rowD_length _)).
+      cbn [bind rbind]. unfold nd_shape0, py_len. rewrite map_length, np_empty_nat.
+      cbn [bind rbind].
+      rewrite (nd_set_even (rowN (kept n c)) (kept n c) evs Hev (rowN_length _)). cbn [bind rbind].
+      rewrite (nd_set_odd (rowN (kept n c)) (rowD (kept n c)) (kept n c) evs Hev (rowN_length _) (rowD_length _)).
+      cbn [bind rbind]. fold (nd_inter n c evs).
+      rewrite (source__compute_mean_pT_cumulants _ (nd_inter n c evs) c).
+      + rewrite (kappa_inter n c evs Hc) by lia. cbn [bind rbind].
+        rewrite (arr_set_fill (fun c => mkappa c evs) (f0 k0) n c (NpF (mkappa c evs)) Hc eq_refl).
+        cbn [bind rbind]. destruct b.
+        * specialize (Hjk eq_refl c Hc). unfold with_arrays, set_N_events, set_D_events in Hjk.
+          cbn [o_N_events o_D_events o_max_order
+               o_mean_pt_correlation o_mean_pt_correlation_error o_kappa o_kappa_error o_mean_pT_correlation
+               o_mean_pT_correlation_error] in Hjk.
+          destruct (jk_new (PFloat (FQ q)) ns seed) as [jk|e]; [|discriminate Hjk].
+          cbn [bind rbind] in Hjk |- *.
+          match goal with |- context [jk_estimate jk ?a ?f] =>
+            replace (jk_estimate jk a f) with (@Ok (scalar K) (errs c)) by (symmetry; exact Hjk) end.
+          cbn [bind rbind]. subst B.
+          rewrite (arr_set_fill (fun c => sval (errs c)) (f0 k0) n c (errs c) Hc eq_refl).
+          cbn [bind rbind]. eexists. split; [reflexivity|]. split; reflexivity.
+        * eexists. split; [reflexivity|]. split; [reflexivity | exact HB].
+      + lia.
+      + unfold nd_inter. destruct evs; [contradiction | discriminate].
+      + intros r Hr. unfold nd_inter in Hr. apply in_map_iff in Hr. destruct Hr as (ev & <- & _).
+        rewrite interleave_length by now rewrite rowN_length, rowD_length.
+        rewrite rowN_length. unfold kept. lia.
+    - rewrite E. cbn [bind rbind]. destruct s' as [A B]. cbn [fst snd] in HI1, HI2.
+      rewrite fillarr_n in HI1. subst A.
+      destruct b.
+      + rewrite fillarr_n in HI2. subst B. reflexivity.
+      + subst B. reflexivity.
+  Qed.
+
+  Theorem source_mean_pT_cumulants_rejects (self : obj K) evs ce df ns seed e :
+    rejected ce df ns seed = Some e -> g_kappa self evs ce df ns seed = Err e.
+  Proof. apply rejected_kappa. Qed.
+  Theorem source_mean_pT_cumulants_no_events (self : obj K) (n : nat) (ce df ns seed : pyval) (b : bool) :
+    o_max_order self = Z.of_nat n -> 1 <= n <= 8 -> valid_args ce df ns seed b ->
+    g_kappa self [] ce df ns seed = Err IndexError.
+  Proof.
+    intros Hmo Hn Hargs.
+    pose proof (valid_not_rejected _ _ _ _ _ Hargs) as Hrej.
+    destruct Hargs as (-> & (q & -> & Hq0 & Hq1) & (z & Hz & Hz0) & (z' & Hz')).
+    unfold rejected in Hrej. cbn [py_as_float py_as_bool] in Hrej. rewrite Hz, Hz' in Hrej.
+    unfold gen_mean_pT_cumulants. cbn [py_as_float py_as_bool]. rewrite Hz, Hz'.
+    change (FQ (0 # 1)) with (FQ 0). change (FQ (1 # 1)) with (FQ 1).
+    destruct (negb (fq_ltb (FQ 0) (FQ q) && fq_ltb (FQ q) (FQ 1))); [discriminate|].
+    destruct (negb (0 <? z)%Z); [discriminate|]. clear Hrej.
+    destruct self as [mo a1 a2 a3 a4 sn sd a5 a6]. cbn [o_max_order] in Hmo. subst mo.
+    destruct n as [|n]; [lia|]. cbn -[Z.of_nat]. rewrite !np_zeros_nat. cbn [bind rbind].
+    rewrite py_range_nat. reflexivity.
+  Qed.
 End Source.
+
+(* ---------------------------------------------------------------- names and defaults of the arguments *)
+Theorem source_public_arguments :
+  gen_mean_pT_correlations_args
+  = ["particle_list_all_events"; "compute_error"; "delete_fraction"; "number_samples"; "seed"]%string /\
+  gen_mean_pT_cumulants_args = gen_mean_pT_correlations_args /\
+  gen_mean_pT_correlations_default_compute_error = PBool true /\
+  gen_mean_pT_correlations_default_number_samples = PInt 100 /\
+  gen_mean_pT_correlations_default_seed = PInt 42 /\
+  gen_mean_pT_cumulants_default_compute_error = PBool true /\
+  gen_mean_pT_cumulants_default_number_samples = PInt 100 /\
+  gen_mean_pT_cumulants_default_seed = PInt 42 /\
+  gen_mean_pT_cumulants_default_delete_fraction = gen_mean_pT_correlations_default_delete_fraction.
+Proof. repeat split; reflexivity. Qed.
+
+(* the defaults are accepted arguments (delete_fraction = the double nearest to 0.4): the theorems are not vacuous *)
+Theorem source_defaults_valid :
+  valid_args gen_mean_pT_correlations_default_compute_error gen_mean_pT_correlations_default_delete_fraction
+             gen_mean_pT_correlations_default_number_samples gen_mean_pT_correlations_default_seed true.
+Proof.
+  split; [reflexivity|]. split.
+  - eexists. split; [reflexivity|]. split; reflexivity.
+  - split; eexists; split; reflexivity.
+Qed.
